@@ -66,6 +66,21 @@ def unrj(p) -> fractions.Fraction:
   return fractions.Fraction(int(p[0]), int(p[1]))
 
 
+def enc_list(xs):
+  """iterable of numbers (python / numpy float32 / float64) -> list of exact [num, den] pairs"""
+  return [rj(x) for x in xs]
+
+
+def dec_list(ps):
+  return [unrj(p) for p in ps]
+
+
+def f32(x):
+  """nearest float32 as a python float (exactly representable)"""
+  import numpy as np
+  return float(np.float32(x))
+
+
 def assert_repo_import():
   import qkeras
   path = os.path.realpath(qkeras.__file__)
